@@ -212,6 +212,19 @@ pub struct Replay {
     pub events_hash: u64,
     pub minimised: bool,
     pub original_size: BTreeMap<String, u64>,
+    /// feature set of the simulator build that produced the file
+    #[serde(default)]
+    pub build: String,
+}
+
+pub fn build_flavour() -> &'static str {
+    if cfg!(feature = "background_rotation") {
+        "background_rotation"
+    } else if cfg!(feature = "gzip") {
+        "gzip"
+    } else {
+        "default"
+    }
 }
 
 #[derive(Default, Serialize, Deserialize)]
@@ -392,6 +405,7 @@ pub fn worker(prop_id: &str, tier: Tier, root: u64, from: u64, to: u64, outdir: 
                     events_hash: out.summary.events_hash,
                     minimised: false,
                     original_size: BTreeMap::new(),
+                    build: build_flavour().to_string(),
                 };
                 let p = outdir.join(format!("raw-{}-{}-{}.json", prop_id, seed, vi));
                 fs::write(&p, serde_json::to_vec_pretty(&rp).unwrap()).unwrap();
@@ -518,6 +532,9 @@ pub fn load_known() -> Vec<KnownFinding> {
 }
 
 pub struct CheckArgs {
+    /// merge this run's coverage into the existing evidence file under this key
+    /// (second pass of a check with another build of the simulator)
+    pub merge_key: Option<String>,
     pub prop: String,
     pub tier: Tier,
     pub root_seed: u64,
@@ -612,7 +629,7 @@ pub fn check(args: &CheckArgs) -> i32 {
     let mut known_lines = vec![];
     let replay_dir = verif_root().join("replays");
     // replay files of earlier runs of this property are stale
-    if let Ok(rd) = fs::read_dir(&replay_dir) {
+    if let (Ok(rd), true) = (fs::read_dir(&replay_dir), args.merge_key.is_none()) {
         for e in rd.flatten() {
             if e.file_name().to_string_lossy().starts_with(&format!("{}-", cfg.id)) {
                 let _ = fs::remove_file(e.path());
@@ -704,6 +721,27 @@ pub fn check(args: &CheckArgs) -> i32 {
     let evdir = verif_root().join("evidence");
     let _ = fs::create_dir_all(&evdir);
     let evp = evdir.join(format!("{}.json", cfg.id));
+    let ev = match &args.merge_key {
+        None => ev,
+        Some(key) => {
+            // second pass: keep the first pass's evidence and add this pass under `coverage.<key>`
+            let mut base: serde_json::Value = fs::read(&evp).ok().and_then(|b| serde_json::from_slice(&b).ok()).unwrap_or(ev.clone());
+            let extra = json!({
+                "evaluations": ev["coverage"]["evaluations"],
+                "distinct_nontrivial": ev["coverage"]["distinct_nontrivial"],
+                "probes": ev["coverage"]["probes"],
+                "harness_errors": ev["coverage"]["harness_errors"],
+                "wall_s": ev["wall_s"],
+                "violations": ev["violations"],
+            });
+            base["coverage"][key] = extra;
+            let v0 = base["violations"].as_i64().unwrap_or(0) + ev["violations"].as_i64().unwrap_or(0);
+            base["violations"] = json!(v0);
+            let w0 = base["wall_s"].as_f64().unwrap_or(0.0) + ev["wall_s"].as_f64().unwrap_or(0.0);
+            base["wall_s"] = json!(w0);
+            base
+        }
+    };
     let tmp = evdir.join(format!(".{}.json.tmp", cfg.id));
     fs::write(&tmp, serde_json::to_vec_pretty(&ev).unwrap()).expect("write evidence");
     fs::rename(&tmp, &evp).expect("rename evidence");
